@@ -1,4 +1,6 @@
 import Cello.Own
+import Cello.OwnConc
+import CelloGen.Table
 import Driver.Common
 /- driver for engine `own` (C05): interprets the op file of harness/h_own.c on the ownership model and prints the
    same `O` lines (see the header of harness/h_own.c for the format). -/
@@ -44,9 +46,9 @@ def parseOp (ws : List String) : Option Op :=
   match ws with
   | ["new", c, k] => do
     let c ← parseNat c
-    let k ← match parseKind k "ALTRB" with
+    let k ← match parseKind k "ALTRBC" with
       | some 'A' => some CKind.arr | some 'L' => some .lst | some 'T' => some .tbl | some 'R' => some .tre
-      | some 'B' => some .boxArr
+      | some 'B' => some .boxArr | some 'C' => some .boxLst
       | _ => none
     pure (.new c k)
   | "newv" :: c :: k :: ps => do
@@ -76,6 +78,7 @@ def parseOp (ws : List String) : Option Op :=
   | ["mrem", c, k] => do pure (.mrem (← parseNat c) (← parseNat k))
   | ["del", c] => do pure (.del (← parseNat c))
   | ["bassign", c, d] => do pure (.bassign (← parseNat c) (← parseNat d))
+  | ["bref", c, p] => do pure (.bref (← parseNat c) (← parseNat p))
   | ["read", c] => do pure (.read (← parseNat c))
   | _ => none
 
@@ -87,8 +90,9 @@ def showCode (c : Nat) : String := if c = 0 then "_" else if c = 1 then "!" else
 
 def kindChar : Cont → Char
   | .seq .array .probe _ => 'A'
-  | .seq .list _ _ => 'L'
+  | .seq .list .probe _ => 'L'
   | .seq .array .box _ => 'B'
+  | .seq .list .box _ => 'C'
   | .map .table _ => 'T'
   | .map .tree _ => 'R'
   | .cell _ => 'X'
@@ -136,6 +140,121 @@ def showCont (w : World) (c : Nat) : String :=
 
 def sortNat (xs : List Nat) : List Nat := (xs.toArray.qsort (· < ·)).toList
 
+/-! ### the structural shadow of the map containers
+
+Next to the world of Cello/Own.lean (association lists) the driver runs every Table / Tree operation on the slot-array
+model of Cello/Table.lean resp. the red-black model of Cello/RBTree.lean with token-valued records (Cello/OwnConc.lean —
+the functions CelloProofs/Lemmas/OwnCompose.lean proves equal to the association-list steps) and prints the concrete
+layout with the identities in it; harness/h_own.c prints the same from the C memory. -/
+
+open Cello.Own.Conc in
+inductive Sh where
+  | tab (t : CTab)
+  | tree (m : CTree)
+
+/-- the parameters of src/Table.c as the translator reads them (same as `tableCfgNow` of Props/C05.lean) -/
+def tcfg : Cello.Table.Cfg :=
+  { ge := CelloGen.Table.tieGe, growEmpty := CelloGen.Table.setGrowsEmpty,
+    ideal := Cello.Table.idealSize CelloGen.Table.primes CelloGen.Table.loadNum CelloGen.Table.loadDen }
+
+abbrev Shadow := List (Nat × Sh)
+
+def shLookup : Shadow → Nat → Option Sh
+  | [], _ => none
+  | (c, x) :: rest, d => if c = d then some x else shLookup rest d
+
+def shErase : Shadow → Nat → Shadow
+  | [], _ => []
+  | (c, x) :: rest, d => if c = d then rest else (c, x) :: shErase rest d
+
+def shStore (sh : Shadow) (c : Nat) (x : Sh) : Shadow := (c, x) :: shErase sh c
+
+open Cello.Own.Conc in
+/-- the pairs a map yields to `foreach` + `get`: slot order / in-order -/
+def shPays : Sh → List (Nat × Nat)
+  | .tab t => pays (slotKVs t)
+  | .tree m => pays (treeKVs m)
+
+def ofTab (r : Except Cello.Table.Fail (Res Cello.Own.Conc.CTab)) : Option Sh :=
+  match r with
+  | .ok r => some (.tab r.val)
+  | .error _ => none
+
+def ofTree (r : Option (Res Cello.Own.Conc.CTree)) : Option Sh := r.map (fun r => .tree r.val)
+
+open Cello.Own.Conc in
+/-- one executed (not `bad`) operation on the shadow; `none` = the structural model failed (ub / diverge / NULL) -/
+def shStep (next : Nat) (sh : Shadow) : Op → Option Shadow
+  | .new c .tbl => some (shStore sh c (.tab (Cello.Table.new tcfg)))
+  | .new c .tre => some (shStore sh c (.tree treeEmpty))
+  | .newMap c .table kvs => (ofTab (tableNewC tcfg probeHash next kvs)).map (shStore sh c)
+  | .newMap c .tree kvs => (ofTree (treeFillC next treeEmpty kvs)).map (shStore sh c)
+  | .mset c k v =>
+    match shLookup sh c with
+    | some (.tab t) => (ofTab (tableSetC tcfg probeHash next t k v)).map (shStore sh c)
+    | some (.tree m) => (ofTree (treeSetC next m k v)).map (shStore sh c)
+    | none => some sh
+  | .mrem c k =>
+    match shLookup sh c with
+    | some (.tab t) => (ofTab (tableRemC tcfg probeHash t k)).map (shStore sh c)
+    | some (.tree m) => (ofTree (treeRemC m k)).map (shStore sh c)
+    | none => some sh
+  | .resize c n =>
+    match shLookup sh c with
+    | some (.tab t) => (ofTab (tableResizeC tcfg probeHash t n)).map (shStore sh c)
+    | some (.tree m) => some (shStore sh c (.tree (treeResizeC m n).val))
+    | none => some sh
+  | .assign c d =>
+    if c = d then some sh else
+    match shLookup sh c, shLookup sh d with
+    | some (.tab t), some src => (ofTab (tableAssignC tcfg probeHash next t (shPays src))).map (shStore sh c)
+    | some (.tree m), some src => (ofTree (treeAssignC next m (shPays src))).map (shStore sh c)
+    | _, _ => some sh
+  | .copy c d =>
+    match shLookup sh d with
+    | some (.tab t) => (ofTab (tableNewC tcfg probeHash next (shPays (.tab t)))).map (shStore sh c)
+    | some (.tree m) => (ofTree (treeFillC next treeEmpty (shPays (.tree m)))).map (shStore sh c)
+    | none => some sh
+  | .del c => some (shErase sh c)
+  | _ => some sh
+
+/-- first index of the sorted array holding a value ≥ x -/
+partial def lowerBound (a : Array Nat) (x : Nat) (lo hi : Nat) : Nat :=
+  if lo < hi then
+    let mid := (lo + hi) / 2
+    if a[mid]! < x then lowerBound a x (mid + 1) hi else lowerBound a x lo mid
+  else lo
+
+def inorder : Cello.RB.T Tok Tok → Nat → List (Nat × KV)
+  | .nil, _ => []
+  | .node c l k v r, d => inorder l (d + 1) ++ (2 * d + (if c = .R then 1 else 0), (k, v)) :: inorder r (d + 1)
+
+open Cello.Own.Conc in
+def showLayout (c : Nat) (s : Sh) : String :=
+  let entries : List (Nat × KV) := match s with
+    | .tab t => (t.slots.toList.zipIdx.filterMap (fun p => p.1.map (fun e => (p.2, e.val))))
+    | .tree m => inorder m.root 0
+  let sorted := (entries.foldl (fun a e => (a.push e.2.1.id).push e.2.2.id) (#[] : Array Nat)).qsort (· < ·)
+  let rk (i : Nat) : Nat := lowerBound sorted i 0 sorted.size
+  if 2 * entries.length > longList then
+    let h0 : UInt64 := match s with
+      | .tab t => mix 1469598103934665603 (UInt64.ofNat t.n)
+      | .tree _ => 1469598103934665603
+    let h := entries.foldl (fun h e =>
+      mix (mix (mix (mix (mix h (UInt64.ofNat e.1)) (UInt64.ofNat (e.2.1.pay + 2))) (UInt64.ofNat (rk e.2.1.id)))
+        (UInt64.ofNat (e.2.2.pay + 2))) (UInt64.ofNat (rk e.2.2.id))) h0
+    s!" {c}~#{h.toNat}"
+  else
+    let head := match s with
+      | .tab t => s!" {c}~{t.n}<"
+      | .tree _ => s!" {c}~<"
+    let item (e : Nat × KV) : String :=
+      let pos := match s with
+        | .tab _ => s!"{e.1}:"
+        | .tree _ => s!"{e.1 / 2}{if e.1 % 2 = 1 then "R" else "B"}:"
+      s!"{pos}{e.2.1.pay}@{rk e.2.1.id}/{e.2.2.pay}@{rk e.2.2.id}"
+    head ++ ",".intercalate (entries.map item) ++ ">"
+
 def showPays (ts : List Tok) : String :=
   let ps := sortNat (ts.map (·.pay))
   if ps.length > longList then
@@ -146,7 +265,12 @@ def showPays (ts : List Tok) : String :=
 def liveDelta (live : Nat) (o : Obs) : Nat :=
   live + o.issued.length - (o.retired.filter (fun t => t.id != 0)).length
 
-def showObs (w : World) (live : Nat) (o : Obs) : String :=
+def showContL (w : World) (sh : Shadow) (c : Nat) : String :=
+  (match shLookup sh c with
+   | some s => showLayout c s
+   | none => "") ++ showCont w c
+
+def showObs (w : World) (sh : Shadow) (live : Nat) (o : Obs) : String :=
   if o.bad then "O bad-op" else
   let ret := o.retired.filter (fun t => t.id != 0)
   let rawd := (o.retired.filter (fun t => t.id == 0)).length
@@ -154,7 +278,7 @@ def showObs (w : World) (live : Nat) (o : Obs) : String :=
     | [a, b] => if a = b then [a] else [a, b]
     | l => l
   s!"O r={o.out.name} iss={showPays o.issued} ret={showPays ret} upd={showPays o.updated} rawd={rawd} live={live} dig={(digest w).toNat} |"
-    ++ String.join (touched.map (showCont w))
+    ++ String.join (touched.map (showContL w sh))
 
 end OwnDrv
 
@@ -162,6 +286,7 @@ open OwnDrv in
 def main (args : List String) : IO Unit := do
   let lines ← Driver.inputLines args
   let mut w : World := {}
+  let mut sh : Shadow := []
   let mut nOps := 0
   let mut nOut := 0
   let mut live := 0
@@ -174,12 +299,17 @@ def main (args : List String) : IO Unit := do
       if !inContract w op then nOut := nOut + 1
       let (w', o) := step w op
       live := liveDelta live o
-      IO.println (showObs w' live o)
+      if !o.bad then
+        match shStep w.next sh op with
+        | some sh' => sh := sh'
+        | none => IO.println "O model-structural-failure (ub / diverge / NULL dereference in the slot-array or red-black model)"
+      IO.println (showObs w' sh live o)
       w := w'
   for op in delAllOps w do
     let (w', o) := step w op
     live := liveDelta live o
-    IO.println (showObs w' live o)
+    sh := (shStep w.next sh op).getD sh
+    IO.println (showObs w' sh live o)
     w := w'
   IO.println s!"O end live={liveCount w}"
   if live != liveCount w then IO.println s!"O model-inconsistent live counter {live} vs logs {liveCount w}"
